@@ -234,6 +234,19 @@ CLAIMED["C07"] = dict(
          "concurrent cleaners under a SIGSTOP/SIGCONT scheduler); uid 0 only (no EACCES paths); single-threaded processes; one node; descriptors represented by program counters.",
     technique="Lean 4 proof (rely/guarantee invariant over an interleaving semantics with arbitrary death points; refutations with concrete schedules) + system-call-level correspondence (strace equality, kill/stop injection)",
     design="DESIGN.md §5 C07, notes/C07-design.md")
+CLAIMED["C17"] = dict(
+    level="proof",
+    text="Lean 4 theorems over the Shutdown model (the L1 publish-subscribe world plus the node handle and the service handle as droppable objects; reference-counted cores: node <- service "
+         "core <- port cores <- loans / samples; `resources` = what exists in the file system / shared-memory namespace by kind) for EVERY reachable history: no drop ever panics, whatever "
+         "else is still alive; once every object is dropped — in ANY order, whatever happened in between — nothing the application created remains except possibly the node's empty directory, "
+         "and that remains only when a port-side object released the last reference to the node (the full `nothing remains` statement is FALSE: machine-checked history = known finding D22); "
+         "while a port (or one of its loans / samples) lives, its data segment, port tag, the service's files and the node's files all exist, even after node and service handle were dropped; "
+         "a connection never outlives both of its ports; every theorem of C01/C02/C08 applies to the survivors (`reach_pubsub`).",
+    note="Trusted: Lean kernel + 3 standard axioms; hand-written model (tie = the real ipc service: all 720 permutations of the drop order of a 6-object graph x 2 configurations + random graphs, "
+         "the set of existing resources by kind compared after every single drop; local variant for behaviour/panics); publish-subscribe only, one node; the other patterns' object graphs "
+         "(event, request-response, blackboard, wait-set guards) are not enumerated.",
+    technique="Lean 4 proof (life-cycle view invariant on top of the C02 invariant; refutation by a concrete history) + differential correspondence over all drop-order permutations",
+    design="DESIGN.md §5 C17")
 NOT_YET = {}
 
 def main():
